@@ -308,7 +308,7 @@ fn snapshot_sig(s: &BTreeMap<u32, Snapshot>) -> usize {
 
 pub fn run(tier: Tier, replay: Option<Value>) -> i32 {
     let run = Run::new("C05", "fault_enumeration", tier, replay.clone());
-    let n_arch = tier.pick(5u64, 40);
+    let n_arch = tier.pick(5u64, 150);
     // build archives first (cheap), then shard (archive, subset) pairs
     let mut work: Vec<(u64, usize)> = Vec::new();
     let mut archs: BTreeMap<u64, (Arch, Vec<Vec<u32>>)> = BTreeMap::new();
